@@ -167,3 +167,11 @@ mut("C32", "R32.1", "setter-wrong-shift", PA + "analysis/k_tuple.rs",
     "    fn set_next_index(&mut self, i: u8) {\n        self.t &= 0xF0FF_FFFF_FFFF_FFFF_FFFF_FFFF_FFFF_FFFF;\n        self.t |= (i as u128) << 116;")
 mut("C34", "R34.1", "ls-grammar-extra-alternative", "crates/parol-ls/parol_ls.par",
     "    | \"%allow_unmatched\"\n    ;", "    | \"%allow_unmatched\"\n    | \"%allow_unmatched\" Identifier\n    ;")
+# ---- later additions
+mut("C08", "R08.6", "early-exit-on-less", RT + "parser/lookahead_dfa.rs",
+    "                    Ordering::Greater => {\n                        // The token type is not found\n                        break;\n                    }\n                    _ => (),",
+    "                    Ordering::Less => {\n                        // The token type is not found\n                        break;\n                    }\n                    _ => (),")
+mut("C08", "R08.5", "lookahead-index-constant", RT + "parser/lookahead_dfa.rs",
+    "            let current_lookahead_token = token_stream.lookahead_token_type(i)?;", "            let current_lookahead_token = token_stream.lookahead_token_type(i.min(1))?;")
+mut("C01", "R01.6", "all-input-consumed-negated", RT + "lexer/token_stream.rs",
+    "            Some(token) => token.token_type == super::EOI,", "            Some(token) => token.token_type != super::EOI || token.text().is_empty(),")
